@@ -7,10 +7,10 @@ def funcHashes : List (String × String) := [
   ("provider.IdentityProvider.callbackHandleFunc", "636c7715f1e361ec"),
   ("provider.IdentityProvider.loginResponse", "98152b496cd27d27"),
   ("provider.IdentityProvider.errorResponse", "36e97fa86262a93a"),
-  ("provider.Response.sendBackResponse", "9ec0634ad775112e"),
-  ("provider.createSignature", "8c96c3f60bccaab7"),
+  ("provider.Response.sendBackResponse", "ce2f63a132d549be"),
+  ("provider.createSignature", "c82c7fa2a02ee920"),
   ("provider.createPostSignature", "63abb0ce7bc8d709"),
-  ("provider.createRedirectSignature", "5127aaad949082ca"),
+  ("provider.createRedirectSignature", "28c3d516d478f83a"),
   ("provider.Response.makeFailedResponse", "dfcc74e197631e19"),
   ("provider.Response.makeSuccessfulResponse", "df93754e5af2b523"),
   ("provider.Response.makeAssertionResponse", "b1a9d567ce552003"),
